@@ -5,7 +5,7 @@
 (* GridEqHist under the intended mechanism; at each Compare event the      *)
 (* recorded answers of == and != are judged against Eq of the contents the *)
 (* specification has reached.  One ndjson line per history:                *)
-(*   [tid, init2, events: <<[act, o, t, f, how, x, y, obs]>>]              *)
+(*   [tid, init2, route, events: <<[act, o, t, f, how, x, y, obs]>>]              *)
 (* obs = <<x == y, x != y>> for Compare, <<>> otherwise; a step that       *)
 (* raised carries obs = <<"raised">>.                                      *)
 (* Verdicts: <<"V", tid, line, clause>>; <<"E", tid, lines consumed>>.     *)
@@ -22,6 +22,8 @@ TraceInit ==
   /\ tid \in 1..Len(Traces)
   /\ l = 1
   /\ init2 = Traces[tid].init2
+  /\ route = Traces[tid].route
+  /\ prov = [ o \in Objs |-> [ latFirst |-> FALSE, sliced |-> FALSE, edited |-> FALSE ] ]
   /\ cont = [ o \in Objs |-> IF o = 1 THEN C0 ELSE InitContent(init2) ]
   /\ derived = [ o \in Objs |-> {} ]
   /\ cmp = [ o \in Objs |-> FALSE ]
